@@ -211,6 +211,8 @@ void block(ThreadRec* me) {
 
 void point_impl(Op op, const void* addr, bool yielding) {
   ThreadRec* me = tl_self;
+  static const bool dbg = getenv("DETSCHED_TRACE") != nullptr;   // debugging aid: one line per scheduling point of the generated-schedule run
+  if (dbg && !g.dry) fprintf(stderr, "  [T%d %s %p]\n", me ? me->id : -1, op == Op::Load ? "load" : op == Op::Store ? "store" : op == Op::Rmw ? "rmw" : op == Op::Cas ? "cas" : op == Op::Fence ? "fence" : op == Op::Yield ? "yield" : "other", addr);
   g.steps++;
   g.clock += kTick;
   if ((g.steps & 15) == 0) wake_expired();
